@@ -68,6 +68,20 @@ CHECKS = {
         technique="TLC model checking of SigCodec.tla + TLC trace validation (C->S) of recorded encoder calls",
         ref="3/C13"),
 }
+CHECKS["C20"] = dict(
+    text="RWLock.tla models ecdsa._rwlock.RWLock with one action per mutex operation and per counter read/write "
+         "(counter += 1 is a read, a write and a second read). TLC checks Excl, NoError, Quiescent and, under weak fairness, "
+         "<>Done (no deadlock, no lost wake-up) for 2R+1W, 1R+2W, 2R+2W (thorough: two rounds, 3R+2W), and that two readers "
+         "can be inside together. Conformance S->C: every transition of TLC's state graph is replayed on the real lock under "
+         "a deterministic scheduler (threading shim + attribute descriptors; context switch before every mutex operation and "
+         "counter access) comparing mutexes, counters, each thread's next operation, who is inside and the enabled set after "
+         "every step - a bounded bisimulation check - and evaluating exclusion / deadlock / quiescence on the real run. "
+         "C->S: seeded random schedules up to 5 threads x 3 rounds validated against RWLockTrace.tla. If the code's step "
+         "structure deviates (DRIFT) the real code's own state graph is explored and the property evaluated on it.",
+    note="Trusted: TLC, CPython atomicity of attribute load/store and of threading.Lock operations; the scheduler shim replaces "
+         "ecdsa._rwlock.threading at run time (no source hook).",
+    technique="TLC model checking (safety + liveness) of RWLock.tla + replay of TLC's state graph into the real lock under a controlled scheduler (S->C) + trace validation (C->S)",
+    ref="3/C20")
 NOT_YET = {}
 
 
